@@ -8,7 +8,7 @@
        secureErrorLogMessage, s, logger, formValueFunc), scratch buffers that are always written
        before they are read (bufK, bufV, Args.buf, URI.fullURI / requestURI, the body writers' back
        pointers, the TimeoutHandler's channel and timer, the reset-in-place timeoutResponse of a
-       ctx that is never pooled), and what belongs to the connection and is assigned by the serve
+       ctx that is never pooled, the serve loop's bodyStreamUnread mark), and what belongs to the connection and is assigned by the serve
        loop for every request (c, remoteAddr, connID, connRequestNum, connTime, time, fbr).
    (2) fresh: a ctx is fresh when every observable field has its zero value.
    (3) how a request is dispatched, as a function of the server configuration and that request
@@ -25,7 +25,8 @@ Definition config_fields : list string := [
 Definition scratch_fields : list string := [
   "Response.Header.header.bufK"; "Response.Header.header.bufV"; "Request.Header.header.bufK"; "Request.Header.header.bufV";
   "Request.postArgs.buf"; "Request.uri.queryArgs.buf"; "Request.uri.fullURI"; "Request.uri.requestURI";
-  "Response.w.r"; "Request.w.r"; "timeoutCh"; "timeoutTimer"; "timeoutResponse" ].
+  "Response.w.r"; "Request.w.r"; "timeoutCh"; "timeoutTimer"; "timeoutResponse";
+  "Request.bodyStreamUnread" (* assigned by the serve loop before every handler call, read after it *) ].
 Definition conn_fields : list string := [
   "c"; "remoteAddr"; "connID"; "connRequestNum"; "connTime"; "time"; "fbr.c"; "fbr.ch"; "fbr.byteRead" ].
 
